@@ -30,8 +30,8 @@ type pbOp struct {
 	Op   string `json:"op"`
 	Res  string `json:"res"`
 	Part string `json:"part"`
-	Who  string `json:"who,omitempty"`  // the account ("" = root)
-	Inv  int64  `json:"inv"`            // logical instants of the request's start and of its reply
+	Who  string `json:"who,omitempty"` // the account ("" = root)
+	Inv  int64  `json:"inv"`           // logical instants of the request's start and of its reply
 	Ret  int64  `json:"ret"`
 	Note string `json:"note,omitempty"` // not read by the spec: status / code
 }
